@@ -118,6 +118,7 @@ func judge(r *core.Run, c *Case, out *sims.Outcome) []sims.CanonCert {
 	}
 	if out.Panic != nil {
 		r.Count("panicked", 1)
+		r.Violation("panicked-instead-of-a-verdict:"+c.Sc.Entry, "the check panicked (no fault of this workload is a panic): "+out.Panic.Value, c)
 		return nil
 	}
 	if out.Err != nil {
